@@ -53,8 +53,8 @@ SPEC = {
     'in_axes / out_axes prefix trees of depth one (one entry for all, or one per argument / result); pmap, shard_map, custom_vjp do not run in this sandbox',
   ],
   'model_partial': [
-    'scan_eq_loop_nnx: soundness direction (whenever nnx.scan returns, the explicit Python loop scanSpecN over the same n and processing order returns the same final store, stacked outputs and final carry); n = the common size of every scanned leaf along its axis (and `length` if given); the converse (no spurious rejection of inputs on which the loop is defined) is not proved',
-    'vmap_eq_per_index: soundness direction (whenever nnx.vmap returns, vmapSpecN over n = the common size of all mapped leaves returns the same); of the converse only the part before the calls is proved (to_tree_accepts_iff: to_tree accepts exactly consistent aliasing; vmap_no_rejection_before_calls: if the reference slices of index i are defined the function is called on them); that the remaining rejection causes (unbatchedness verdict, stacking of per-index values, out_axes arity / missing axis, size check) coincide with the reference being undefined is not proved',
+    'scan_eq_loop_nnx: soundness direction, with n = the common size of every scanned leaf along its axis (and `length` if given). Converse: proved up to the calls (scan_no_rejection_before_loop: consistent aliasing + equal scanned sizes => _scan_split_in accepts, lax.scan finds n, every index can be sliced, and by scan_iteration_sees every iteration calls the function on the Python loop\'s values); scan_rejects_iff is NOT proved for the causes arising inside / after the loop: the traced function failing, _check_carry_same_references (characterised exactly on its own: scan_carry_refs_checked), lax.scan\'s carry-structure check (a carried Variable or the array carry changing shape - a rejection the reference loop does not have), out_axes arity / missing axis on results, jnp.stack of per-iteration values of unequal shapes; those are tied by the correspondence run (error kinds carry_refs, out_none, multiple_carry, carry_mismatch, length_mismatch, arity) only',
+    'vmap_eq_per_index + vmap_accepts_iff / vmap_rejects_iff: complete on the model - nnx.vmap returns iff VmapAccepts (no Carry / bare StateAxes in the axes, positive unbatchedness verdict, in_axes matching the arguments, every occurrence of every Variable an axis and the same one, all mapped leaves of one size n with axis_size = n if given and something mapped if not, vmapSpecN n defined), and then returns the reference\'s result. Remaining assumptions only: jax\'s unbatchedness check enters by its verdict; the single-trace hypothesis TraceUniform (all indices return equally many results of the same kinds, fresh nodes with the same Variables and distinct paths); foreign JAX error classes are compared by the correspondence run',
     'grad_value_aux_effects_once / grad_depends_on_extension_only: everything up to the call of jax.value_and_grad and after it is proved; that the returned numbers are the derivative is assumption A-AD (label: partial); the identification of GradFn\'s merged input with "selected leaves from the argument, unselected closed over" is by definition of gradFn/gradMergeAll and checked by correspondence, not restated per Variable',
   ],
 }
